@@ -34,7 +34,7 @@ func runC15(tier string, seed uint64) {
 		for i := 0; i < nseq; i++ {
 			s := newSess("c15", kind, SessOpts{})
 			u := univFor(kind)
-			u.keys = append(u.keys, "k with space", "\xc3\xbc/x")
+			u.keys = append(u.keys, "k with space", "\xc3\xbc/x", ".modtime-resolution") // the last one: the name of a scratch file the fs backends use
 			if !isSingle(kind) {
 				s.MkBucket(u.buckets[0])
 			}
